@@ -188,20 +188,39 @@ def enc(op):
     return f"O {opq_id(n)} {r} {c} {mat(b0(op.to_dense(), nb))}"
 
 
-DECLARED = re.compile(
-    r"only defined for square|only works on batch dimensions|cannot permute the non-batch|Can only unsqueeze batch dimensions of"
-    r"|Invalid expand arguments|Invalid repeat arguments|Cannot transpose batch dimension|not positive definite"
-    r"|are not positive definite|does not allow a root decomposition|Trailing batch shapes must match|requires a dim argument"
-    r"|Attempted to divide by a ZeroLinearOperator|Must have same diag_shape|not implemented|is not supported", re.I)
+GENERAL = re.compile(r"not positive definite|are not positive definite|does not allow a root decomposition|not implemented"
+                     r"|is not supported|not supported", re.I)
+# messages with which a specific operation declares an argument combination unsupported
+BY_OP = {
+    "add": r"Trailing batch shapes must match",
+    "sub": r"Trailing batch shapes must match",
+    "mul": r"expects two LinearOperators of the same size|Must have same diag_shape",
+    "div": r"Attempted to divide by a ZeroLinearOperator",
+    "unsqueeze": r"Can only unsqueeze batch dimensions of",
+    "unsq": r"Can only unsqueeze batch dimensions of",
+    "expand": r"Invalid expand arguments|but this is the concatenated dimension",
+    "_expand_batch": r"but this is the concatenated dimension",
+    "repeat": r"Invalid repeat arguments",
+    "permute": r"cannot permute the non-batch",
+    "transpose": r"Cannot transpose batch dimension",
+    "prod": r"only works on batch dimensions|requires a dim argument",
+    "sum": r"Invalid dim",
+    "add_diagonal": r"only defined for square",
+    "add_jitter": r"only defined for square",
+}
 
 
-def declared_unsupported(e):
+def declared_unsupported(e, opkind=""):
     """Is this exception the library saying `not supported` (as opposed to an error from inside)?"""
     from linear_operator.utils.errors import NotPSDError
     if isinstance(e, (NotImplementedError, NotPSDError)):
         return True
-    if isinstance(e, (RuntimeError, ValueError)) and DECLARED.search(str(e)):
-        return True
+    if isinstance(e, (RuntimeError, ValueError)):
+        if GENERAL.search(str(e)):
+            return True
+        for k, pat in BY_OP.items():
+            if opkind.startswith(k) and re.search(pat, str(e), re.I):
+                return True
     return False
 
 
@@ -242,7 +261,7 @@ class Runner:
                 return c0(cell, what, payload)
             chk.violation, chk.corr_break = v, c
 
-    def record(self, cell, desc, impl_fn, spec_fn, payload, exact=True, model=None, psd_ok=True):
+    def record(self, cell, desc, impl_fn, spec_fn, payload, exact=True, model=None, opkind=""):
         """Run one case.  impl_fn() -> library result; spec_fn() -> dense tensor (None / raises: undefined)."""
         chk = self.chk
         try:
@@ -256,9 +275,8 @@ class Runner:
         try:
             res = impl_fn()
         except Exception as e:
-            if declared_unsupported(e):
+            if declared_unsupported(e, opkind or cell.split("/")[2]):
                 chk.count("declared-unsupported")
-                chk.traces_validated += 0
                 return None
             chk.count("raised")
             chk.violation(f"{cell}/raise:{type(e).__name__}", f"{desc}: {type(e).__name__}: {str(e)[:160]}", payload)
@@ -301,7 +319,8 @@ class Runner:
             if exact and "Mul(*)" not in itree and parts[4] != "-":
                 rows = [[float(__import__('fractions').Fraction(x)) for x in r.split(",")] for r in parts[4].split(";")]
                 mt = torch.tensor(rows, dtype=idense.dtype)
-                if tuple(mt.shape) != tuple(idense.shape) or not torch.allclose(mt, idense, atol=1e-9 * max(1.0, float(idense.abs().max())), rtol=0):
+                tol = (1e-9 if idense.dtype == torch.float64 else 1e-4) * (1 if 'Toeplitz' not in itree else 1e3)
+                if tuple(mt.shape) != tuple(idense.shape) or not torch.allclose(mt, idense, atol=tol * max(1.0, float(idense.abs().max())), rtol=0):
                     chk.corr_break(f"{cell}/model-value", f"value: model {parts[4][:80]} vs implementation {idense.tolist()}", payload)
                     continue
             chk.traces_validated += 1
@@ -424,6 +443,8 @@ def run_pairs(R, chk, thorough):
                         line = pair_line(op, a.build() if a.name != "Tensor" else None, b.build() if b.name != "Tensor" else None)
                     except Exception:
                         line = None
+                    if (not thorough and kind != "same2") or (thorough and kind in ("one3", "bc")):
+                        line = None   # the dispatch does not depend on batch shapes: model lines for a subset of the kinds
                     R.record(cell, desc, impl, spec, payload, exact=exact, model=line)
 
 
@@ -511,7 +532,7 @@ def unary_cases(it, batch, rng, dtype):
     cases.append(("repeat2", lambda o: o.repeat(*([2] + [1] * (nb + 1 if nb else 2))), lambda d: d.repeat(*([2] + [1] * (nb + 1 if nb else 2))), None))
     cases.append(("repeat32", lambda o: o.repeat(3, *([2] * nb), 1, 1), lambda d: d.repeat(3, *([2] * nb), 1, 1), None))
     cases.append(("expand-new", lambda o: o.expand(2, *D.shape), lambda d: d.expand(2, *d.shape), None))
-    cases.append(("_expand_batch", lambda o: o._expand_batch(torch.Size((3,) + tuple(batch))), lambda d: d.expand(3, *d.shape), None))
+    cases.append(("_expand_batch", lambda o: o._expand_batch(torch.Size((3,) + tuple(it.shape[:-2]))), lambda d: d.expand(3, *d.shape), None))
     for dim in range(nb + 1):
         cases.append((f"unsqueeze{dim}", lambda o, dim=dim: o.unsqueeze(dim), lambda d, dim=dim: d.unsqueeze(dim), None))
     cases.append(("unsqueeze-3", lambda o: o.unsqueeze(-3), lambda d: d.unsqueeze(-3), None))
@@ -746,7 +767,7 @@ def run_programs(R, chk, thorough, progs=None):
         exact = "mulm" not in ops and "Toeplitz" not in desc
         if not ok:
             chk.case(desc)
-            if declared_unsupported(err):
+            if declared_unsupported(err, ""):
                 chk.count("declared-unsupported")
                 continue
             cell = f"C02/prog/ops={'+'.join(ops)}/leaves={'+'.join(lnames)}/raise:{type(err).__name__}"
